@@ -978,6 +978,25 @@ func (lw *lckWorld) probeTypestate(pi *probeInfo) {
 		// must-store after probe: dataflow "probed and not yet stored"
 		pending := lw.pendingAtReturn(f, run, pi.field, pi.armedSub)
 		r.cond(!pending, "LCK-3", name, "store "+fld+" after probe", w.Pos(run.Pos()), "every path from the probe to a return stores into the same flag field", "some path from the probe reaches a return without caching the result: the next request probes again")
+		// check-then-act atomicity: the mutex taken for the nil test is still held when the probe starts, and is not
+		// released anywhere between the armed edge of the test and the store (else two requests both see nil and both probe)
+		heldAtRun, seenRun := false, false
+		var released *ssa.Call
+		lw.flow(f, lw.entry[f], func(in ssa.Instruction, s lockState) {
+			if in == ssa.Instruction(run) {
+				heldAtRun, seenRun = s.must, true
+			}
+			if c, ok := in.(*ssa.Call); ok && lw.lockCall(&c.Call) == "Unlock" && released == nil {
+				for _, g := range guards {
+					if len(g.tblock.Preds) == 1 && dom(g.tblock, c.Block()) && lw.storeReachableFrom(c, pi.field) {
+						released = c
+					}
+				}
+			}
+		})
+		r.cond(seenRun && heldAtRun && released == nil, "LCK-3", name, "probe of "+fld+" runs with the mutex of the nil test still held", w.Pos(run.Pos()),
+			"the cache mutex is held on every path at the probe call and no Unlock lies between the armed edge of the nil test and the store of the flag: test, probe and store form one critical section",
+			"the cache mutex is released between the nil test of the flag and the store of the probe result: concurrent first requests all see nil and each probes the tool (more than once per cache)")
 	}
 	if lw.structFlag(pi.field) {
 		lw.structFlagStores(pi, runs, wrapped)
@@ -1203,6 +1222,50 @@ func (lw *lckWorld) structFlagStores(pi *probeInfo, runs []*ssa.Call, wrapped ma
 }
 
 // pendingAtReturn: may a return be reached from `run` without a store into flag `field`?
+// storeReachableFrom: some store into the flag field is reachable from the instruction after `from` (same block, later) or from a successor block.
+func (lw *lckWorld) storeReachableFrom(from ssa.Instruction, field int) bool {
+	isStore := func(in ssa.Instruction) bool {
+		st, ok := in.(*ssa.Store)
+		if !ok {
+			return false
+		}
+		if fa, ok := lw.fieldAddr(st.Addr); ok && fa.Field == field {
+			return true
+		}
+		if f, _, ok := lw.flagAddr(st.Addr); ok && f == field {
+			return true
+		}
+		return false
+	}
+	b := from.Block()
+	after := false
+	for _, in := range b.Instrs {
+		if after && isStore(in) {
+			return true
+		}
+		if in == from {
+			after = true
+		}
+	}
+	seen := map[*ssa.BasicBlock]bool{}
+	work := append([]*ssa.BasicBlock{}, b.Succs...)
+	for len(work) > 0 {
+		x := work[len(work)-1]
+		work = work[:len(work)-1]
+		if seen[x] {
+			continue
+		}
+		seen[x] = true
+		for _, in := range x.Instrs {
+			if isStore(in) {
+				return true
+			}
+		}
+		work = append(work, x.Succs...)
+	}
+	return false
+}
+
 func (lw *lckWorld) pendingAtReturn(f *ssa.Function, run *ssa.Call, field, armedSub int) bool {
 	pendIn := make([]bool, len(f.Blocks))
 	result := false
